@@ -36,13 +36,22 @@ def obligations(tier, seed):
     # quick explores a seeded quarter of each grammar index space (two middle index bits pinned by the seed)
     q = ['b9 == %s' % bool(seed & 1), 'b8 == %s' % bool(seed & 2)] if tier == 'quick' else []
     n = 2 if tier == 'quick' else 3
-    obs = [
-        dict(name='C02a.expr_roundtrip', fn='expr_roundtrip', timeout=t, shards=[_top(i) + q for i in range(16)],
-             bounds='%d slots x %d child kinds (index from 14 boolean structure parameters; quick: a seeded quarter)' % (pk.N_SLOT, pk.N_CHILD)),
+    obs = ([
+        dict(name='C02a.expr_roundtrip', fn='expr_roundtrip_q', timeout=t, shards=[['b11 == %s' % a, 'b10 == %s' % b] for a in (True, False) for b in (True, False)],
+             bounds='all %d slots x 32 interesting child kinds' % pk.N_SLOT),
+    ] if tier == 'quick' else [
+        dict(name='C02a.expr_roundtrip', fn='expr_roundtrip', timeout=t, shards=[_top(i) for i in range(16)],
+             bounds='all %d slots x %d child kinds (index from 14 boolean structure parameters)' % (pk.N_SLOT, pk.N_CHILD)),
+    ]) + [
         dict(name='C02a.expr.twin', fn='expr_twin', timeout=t, shards=[['p == 5']], expect='refuted', bounds='reachability twin: parentheses are emitted'),
+    ] + ([
+        dict(name='C02b.stmt_roundtrip', fn='stmt_roundtrip_q', timeout=t, shards=[['b11 == %s' % a, 'b10 == %s' % b] for a in (True, False) for b in (True, False)],
+             bounds='all %d statement templates x 32 interesting child kinds' % pk.N_STMT),
+    ] if tier == 'quick' else [
         dict(name='C02b.stmt_roundtrip', fn='stmt_roundtrip', timeout=t,
-             shards=[_top(i) + q + _fix(14, 7, c2) for i in range(16) for c2 in ((1,) if tier == 'quick' else (1, 9, 41, 63))],
-             bounds='all %d statement templates x %d child kinds' % (pk.N_STMT, pk.N_CHILD)),
+             shards=[_top(i) + _fix(14, 7, c2) for i in range(16) for c2 in (1, 9, 41, 63)],
+             bounds='all %d statement templates x %d child kinds x 4 second-child kinds' % (pk.N_STMT, pk.N_CHILD)),
+    ]) + [
         dict(name='C02d.number_print', fn='number_print_b', timeout=t, shards=[['b0 == True'], ['b0 == False']], bounds='see META'),
         dict(name='C02e.ministring', fn='ministring', timeout=t, shards=[['len(s) <= %d' % n, 'q == %d' % q, 'not has_surrogate(s)'] for q in range(4)],
              bounds='|s| <= %d, 4 quote styles' % n),
